@@ -46,10 +46,13 @@ pub struct Msg {
 }
 impl Msg {
     pub const ZERO: Msg = Msg { w: [0; MB], len: 0 };
+    /// Messages longer than MMAX are recorded by their length and their first MMAX bytes (two
+    /// long messages with equal length and prefix are then indistinguishable to the model; the
+    /// harnesses that use long messages only compare length and prefix).
     pub fn from_bytes(b: &[u8]) -> Msg {
-        assert!(b.len() <= MMAX, "VERIF-ENV: signature model message too long");
+        let n = if b.len() <= MMAX { b.len() } else { MMAX };
         let mut raw = [0u8; MMAX];
-        raw[..b.len()].copy_from_slice(b);
+        raw[..n].copy_from_slice(&b[..n]);
         Msg { w: unsafe { core::mem::transmute(raw) }, len: b.len() }
     }
     pub fn bytes(&self) -> [u8; MMAX] {
